@@ -235,6 +235,12 @@ func runC01(c *Ctx) {
 	c.ruleOpt("R01.1", "server: the argument-list slot a decoded parameter is stored in equals the index of the declared input whose type decoded it")
 	c.ruleOpt("R01.2", "the argument list has one slot per declared input; the context sits in the input position that was tested for being a context (server and client)")
 	c.ruleOpt("R01.3", "client: wire parameter i is the argument at position i + number of leading context arguments; the parameter list has len(args) minus that number of entries")
+	c.ruleOpt("R01.4", "no frame, parameter or result bytes live in pooled memory that is recycled while another goroutine or the caller still holds it")
+	c.poolSharedRule("R01.4", nil)
+	c.rule("R01.5", "every handler argument is the receiver, the context, the raw params, or a value decoded into a fresh reflect.New of the declared type (nothing left over from an earlier call can be merged in)")
+	c.argumentOrigins("R01.5")
+	c.rule("R01.6", "the context input and the error output of a signature are recognised by identity of the declared type with context.Context / error, never by Implements/AssignableTo/ConvertibleTo")
+	c.signatureClassification("R01.6")
 	if r.FnDisp == nil || r.FnCall == nil {
 		c.und("R01.1", "dispatcher / client call", "-", "not resolved")
 		return
@@ -702,4 +708,139 @@ func btoi(b bool) int {
 		return 1
 	}
 	return 0
+}
+
+// signatureClassification: R01.6. A declared input / output type of a method (the result of
+// reflect.Type.In / Out) decides a descriptor slot (leading context, error output). The client
+// builds the error output as reflect.New(error).Elem() and the server reads it as an error
+// interface, so only the interface type itself may be classified as "the error" — a value type that
+// merely has an Error method is a value. Likewise a first parameter that merely implements
+// context.Context is an ordinary parameter. Every classification is therefore an identity
+// comparison with the reference type; Implements / AssignableTo / ConvertibleTo between a declared
+// type and a reference type misclassifies such signatures.
+func (c *Ctx) signatureClassification(rule string) {
+	p := c.P
+	isRT := func(t types.Type) bool { return isNamed(t, "reflect", "Type") }
+	// declared: v is (or comes from) a reflect.Type.In / Out call
+	declared := func(v ssa.Value) string {
+		for _, o := range c.origins(v) {
+			if call, ok := o.Root.(*ssa.Call); ok && len(o.Fields) == 0 && call.Common().IsInvoke() && isRT(call.Common().Value.Type()) {
+				switch call.Common().Method.Name() {
+				case "In", "Out":
+					return call.Common().Method.Name()
+				}
+			}
+		}
+		return ""
+	}
+	// reference: v is the reflect.Type of the error or context.Context interface
+	refGlobals := map[*ssa.Global]string{}
+	refOfElem := func(v ssa.Value) string {
+		call, ok := v.(*ssa.Call)
+		if !ok || !call.Common().IsInvoke() || call.Common().Method.Name() != "Elem" {
+			return ""
+		}
+		tof, ok := call.Common().Value.(*ssa.Call)
+		if !ok || calleeName(tof) != "reflect.TypeOf" {
+			return ""
+		}
+		arg := tof.Common().Args[0]
+		if mi, ok := arg.(*ssa.MakeInterface); ok {
+			if pt, ok := mi.X.Type().Underlying().(*types.Pointer); ok {
+				if isErrorType(pt.Elem()) {
+					return "error"
+				}
+				if isNamed(pt.Elem(), "context", "Context") {
+					return "context"
+				}
+			}
+		}
+		return ""
+	}
+	scan := append([]*ssa.Function{}, p.Funcs...)
+	for _, pk := range p.ByPath {
+		if ini := pk.Func("init"); ini != nil {
+			scan = append(scan, ini)
+		}
+	}
+	for _, fn := range scan {
+		allInstrsRaw(fn, func(in ssa.Instruction) {
+			st, ok := in.(*ssa.Store)
+			if !ok {
+				return
+			}
+			g, ok := st.Addr.(*ssa.Global)
+			if !ok {
+				return
+			}
+			if k := refOfElem(st.Val); k != "" {
+				refGlobals[g] = k
+			}
+		})
+	}
+	reference := func(v ssa.Value) string {
+		for _, o := range c.origins(v) {
+			if len(o.Fields) != 0 {
+				continue
+			}
+			switch x := o.Root.(type) {
+			case *ssa.Global:
+				if k := refGlobals[x]; k != "" {
+					return k
+				}
+			case *ssa.UnOp:
+				if g, ok := x.X.(*ssa.Global); ok {
+					if k := refGlobals[g]; k != "" {
+						return k
+					}
+				}
+			case *ssa.Call:
+				if k := refOfElem(x); k != "" {
+					return k
+				}
+			}
+		}
+		return ""
+	}
+	for _, fn := range p.Funcs {
+		if pkgOf(fn) != p.Root.Pkg {
+			continue
+		}
+		allInstrsRaw(fn, func(in ssa.Instruction) {
+			switch x := in.(type) {
+			case *ssa.BinOp:
+				if (x.Op != token.EQL && x.Op != token.NEQ) || !isRT(x.X.Type()) {
+					return
+				}
+				a, b := x.X, x.Y
+				if declared(a) == "" {
+					a, b = b, a
+				}
+				d, k := declared(a), reference(b)
+				if d == "" || k == "" {
+					return
+				}
+				c.ok(rule, fmt.Sprintf("%s: declared %s type vs %s", fname(fn), strings.ToLower(d), k), c.ipos(in), "identity comparison")
+			case *ssa.Call:
+				if !x.Common().IsInvoke() || !isRT(x.Common().Value.Type()) || len(x.Common().Args) != 1 {
+					return
+				}
+				switch x.Common().Method.Name() {
+				case "Implements", "AssignableTo", "ConvertibleTo":
+				default:
+					return
+				}
+				a, b := x.Common().Value, x.Common().Args[0]
+				if declared(a) == "" {
+					a, b = b, a
+				}
+				d, k := declared(a), reference(b)
+				if d == "" || k == "" {
+					return
+				}
+				c.bad(rule, fmt.Sprintf("%s: declared %s type vs %s", fname(fn), strings.ToLower(d), k), c.ipos(in),
+					"a declared "+strings.ToLower(d)+" type is classified as the "+k+" by "+x.Common().Method.Name()+": a value type that merely implements the interface (a result struct with an Error method, a parameter type embedding a context) is then treated as the "+k+" slot — the server turns the value into an error (or drops the parameter) and the client's reflect.MakeFunc panics on the mismatching output")
+			}
+		})
+	}
 }
